@@ -954,6 +954,47 @@ def rule_removal(ctx: Ctx) -> None:
     ok = bool(rem) and cfg.exit not in cfg.reach(cut_nodes=rem, cut_edge=absent, follow_exc=False)
     ctx.check(ok, "removal", rp, rp.node, "remove_peer takes the peer out of verified_peers on every path (unless it is not a member)",
               "remove_peer can return while the peer is still in verified_peers: the removed peer is still returned by lookups")
+    # instance coherence (defect fixed by 97dc48d): the readers of reverse_ip_lookup / reverse_service_lookup re-validate a cached Peer by
+    # EQUALITY against verified_peers (Peer equality is by public key).  After remove + add of the same identity as a new instance (other
+    # addresses) the stale instance would still validate, so a remover must also forget the removed peer in these caches - unless the
+    # readers validate by identity (`is`).
+    def validates_identity(index: str) -> bool:
+        for fi in net.methods.values():
+            reads = [c for c in calls(fi) if isinstance(c.func, ast.Attribute) and chain(c.func.value) == f"self.{index}" and c.func.attr in ("get", "pop")]
+            if not reads:
+                continue
+            if not any(isinstance(n, ast.Compare) and any(isinstance(o, (ast.Is, ast.IsNot)) for o in n.ops)
+                       and any("verified_by_public_key_bin" in norm(x) for x in [n.left, *n.comparators])
+                       for n in walk_no_nested(fi.node)):
+                return False
+        return True
+    def prunes_values(fi: FuncInfo, index: str, depth: int = 2) -> bool:
+        """`for cache in self.<index>.values(): cache.remove(..)` (also .items(), also in a Network helper fi calls)"""
+        for loop in [n for n in walk_no_nested(fi.node) if isinstance(n, (ast.For, ast.AsyncFor))]:
+            it = _unwrap(loop.iter)
+            if isinstance(it, ast.Call) and isinstance(it.func, ast.Attribute) and it.func.attr in ("values", "items") and chain(it.func.value) == f"self.{index}":
+                names = {x.id for x in ast.walk(loop.target) if isinstance(x, ast.Name)}
+                for c in ast.walk(loop):
+                    if isinstance(c, ast.Call) and isinstance(c.func, ast.Attribute) and c.func.attr in ("remove", "discard", "pop", "clear") \
+                            and isinstance(c.func.value, ast.Name) and c.func.value.id in names:
+                        return True
+                    if isinstance(c, ast.Assign) and any(isinstance(t, ast.Subscript) and isinstance(t.value, ast.Name) and t.value.id in names for t in c.targets):
+                        return True
+        if depth > 0 and fi.cls is not None:
+            for c in calls(fi):
+                ch = chain(c.func) or ""
+                if ch.startswith("self.") and ch.count(".") == 1:
+                    t = fi.cls.methods.get(call_name(c))
+                    if t is not None and t.node is not fi.node and prunes_values(t, index, depth - 1):
+                        return True
+        return False
+
+    for index in ("reverse_ip_lookup", "reverse_service_lookup"):
+        for fi in (ra, rp):
+            ok = _updates_index(ctx, fi, index) or prunes_values(fi, index) or validates_identity(index)
+            ctx.check(ok, "removal", fi, fi.node, f"{fi.name} forgets the removed peer(s) in {index} (or its readers validate cached peers by identity)",
+                      f"{fi.name} leaves the removed Peer instance in {index}: its readers re-validate cached entries by equality against verified_peers, so after "
+                      "the same identity is added again as another instance (other addresses) lookups return the removed instance with its old addresses")
 
 
 _WA_FIELDS = ("introduced_by", "services", "new_style")
@@ -1256,17 +1297,34 @@ def run(ctx: Ctx) -> None:
 
 
 WITNESSES = [
+    {"name": "removed peer stays in the lookup caches (defect fixed by 97dc48d)", "file": NW, "rule": "removal",
+     "edits": [{"file": NW, "old": """                self._forget_cached_peer(peer)
+                list(map""", "new": """                list(map"""},
+               {"file": NW, "old": """            self.services_per_peer.pop(peer.public_key.key_to_bin(), None)
+            self._forget_cached_peer(peer)
+""", "new": """            self.services_per_peer.pop(peer.public_key.key_to_bin(), None)
+"""}]},
     {"name": "pre-fix: walkable-address query mutates services", "file": NW, "rule": "coherence",
      "old": "services = set(self.services_per_peer.get(intro_peer, set()))", "new": "services = self.services_per_peer.get(intro_peer, set())"},
     {"name": "pre-fix: remove_by_address leaves by-key index", "file": NW, "rule": "coherence",
-     "old": "                self.verified_by_public_key_bin.pop(peer.public_key.key_to_bin(), None)\n                list(map(methodcaller(\"on_peer_removed\", peer), self.peer_observers))",
-     "new": "                list(map(methodcaller(\"on_peer_removed\", peer), self.peer_observers))"},
-    {"name": "pre-fix: address cache unvalidated", "file": NW, "rule": "coherence",
-     "old": "            if peer is not None and (peer not in self.verified_peers or address not in peer.addresses.values()):\n                # The cached peer was removed or no longer uses this address.\n                peer = None\n",
-     "new": ""},
-    {"name": "address cache validation checks membership only... of wrong set", "file": NW, "rule": "coherence",
-     "old": "            if peer is not None and (peer not in self.verified_peers or address not in peer.addresses.values()):",
-     "new": "            if peer is not None and (peer.public_key.key_to_bin() not in self.services_per_peer or address not in peer.addresses.values()):"},
+     "old": "                self.verified_by_public_key_bin.pop(peer.public_key.key_to_bin(), None)\n                self._forget_cached_peer(peer)",
+     "new": "                self._forget_cached_peer(peer)"},
+    {"name": "pre-fix: address cache unvalidated (and not purged on removal)", "file": NW, "rule": "coherence",
+     "edits": [{"file": NW, "old": "            if peer is not None and (peer not in self.verified_peers or address not in peer.addresses.values()):\n                # The cached peer was removed or no longer uses this address.\n                peer = None\n",
+                "new": ""}, {"file": NW, "old": """                self._forget_cached_peer(peer)
+                list(map""", "new": """                list(map"""},
+               {"file": NW, "old": """            self.services_per_peer.pop(peer.public_key.key_to_bin(), None)
+            self._forget_cached_peer(peer)
+""", "new": """            self.services_per_peer.pop(peer.public_key.key_to_bin(), None)
+"""}]},
+    {"name": "address cache validation checks membership only... of wrong set (and not purged on removal)", "file": NW, "rule": "coherence",
+     "edits": [{"file": NW, "old": "            if peer is not None and (peer not in self.verified_peers or address not in peer.addresses.values()):",
+                "new": "            if peer is not None and (peer.public_key.key_to_bin() not in self.services_per_peer or address not in peer.addresses.values()):"}, {"file": NW, "old": """                self._forget_cached_peer(peer)
+                list(map""", "new": """                list(map"""},
+               {"file": NW, "old": """            self.services_per_peer.pop(peer.public_key.key_to_bin(), None)
+            self._forget_cached_peer(peer)
+""", "new": """            self.services_per_peer.pop(peer.public_key.key_to_bin(), None)
+"""}]},
     {"name": "pre-fix: introduction cache unvalidated", "file": NW, "rule": "coherence",
      "old": """                introductions = [address for address in introductions if address in self._all_addresses
                                  and self._all_addresses[address].introduced_by == key_material]""",
